@@ -516,22 +516,26 @@ func buildContractState(tx UpdateStateTx, fces []consensus.FileContractElementDi
 		case created:
 			state.ConfirmedV2 = append(state.ConfirmedV2, fce)
 			log.Debug("confirmed v2 contract", zap.Stringer("contractID", fce.ID))
-		case rev != nil:
-			if revert {
-				state.RevisedV2 = append(state.RevisedV2, RevisedV2Contract{
-					ID:             fce.ID,
-					V2FileContract: fce.V2FileContract,
-				})
-				log.Debug("revised contract", zap.Uint64("current", rev.RevisionNumber), zap.Uint64("revised", fce.V2FileContract.RevisionNumber))
-			} else {
-				log.Debug("revised contract", zap.Uint64("current", fce.V2FileContract.RevisionNumber), zap.Uint64("revised", rev.RevisionNumber))
-				state.RevisedV2 = append(state.RevisedV2, RevisedV2Contract{
-					ID:             fce.ID,
-					V2FileContract: *rev,
-				})
+		case rev != nil || res != nil:
+			if rev != nil {
+				if revert {
+					state.RevisedV2 = append(state.RevisedV2, RevisedV2Contract{
+						ID:             fce.ID,
+						V2FileContract: fce.V2FileContract,
+					})
+					log.Debug("revised contract", zap.Uint64("current", rev.RevisionNumber), zap.Uint64("revised", fce.V2FileContract.RevisionNumber))
+				} else {
+					log.Debug("revised contract", zap.Uint64("current", fce.V2FileContract.RevisionNumber), zap.Uint64("revised", rev.RevisionNumber))
+					state.RevisedV2 = append(state.RevisedV2, RevisedV2Contract{
+						ID:             fce.ID,
+						V2FileContract: *rev,
+					})
+				}
 			}
-		case res != nil:
+			// a contract can be revised and resolved by different transactions
+			// of the same block; the diff then carries both
 			switch res := res.(type) {
+			case nil:
 			case *types.V2FileContractRenewal:
 				state.RenewedV2 = append(state.RenewedV2, types.FileContractID(fce.ID))
 				log.Debug("renewed v2 contract", zap.Stringer("contractID", fce.ID))
